@@ -168,6 +168,7 @@ class SubCheck:
         machine=None,
         steps=(20, 40),
         fork_timeout=None,
+        tiers=("quick", "thorough"),
     ):
         self.name = name
         self.oracle = oracle
@@ -183,6 +184,7 @@ class SubCheck:
         self.machine = machine
         self.steps = steps
         self.fork_timeout = fork_timeout
+        self.tiers = tiers
 
 
     def replay_trace(self, trace):
@@ -277,6 +279,9 @@ class Stats:
         return self.__dict__
 
 
+_LAST_OVERRIDE = [None]
+
+
 def _evaluate(sc, spec):
     """-> ("ok", info) | ("violation", message) | ("harness", message); never raises."""
     try:
@@ -289,6 +294,7 @@ def _evaluate(sc, spec):
             info["nontrivial"] = bool(info["nontrivial"])
         return ("ok", info)
     except Violation as v:
+        _LAST_OVERRIDE[0] = getattr(v, "spec_override", None)
         return ("violation", str(v))
     except HarnessError as e:
         return ("harness", str(e))
@@ -315,7 +321,11 @@ def run_case(sc, spec, stats):
     else:
         kind, out = _evaluate(sc, spec)
     if kind == "violation":
-        raise Violation(out)
+        v = Violation(out)
+        if not sc.fork_timeout and _LAST_OVERRIDE[0] is not None:
+            v.spec_override = _LAST_OVERRIDE[0]
+            _LAST_OVERRIDE[0] = None
+        raise v
     if kind == "harness":
         raise HarnessError(out)
     info = out
@@ -328,6 +338,14 @@ def run_case(sc, spec, stats):
         stats.known[info["known"]] += 1
     for lab in info["classes"]:
         stats.classes[lab] += 1
+    bulk = info.get("bulk")
+    if bulk:  # a whole campaign (coverage-guided fuzzing) reported as one case
+        stats.evaluations += int(bulk.get("evaluations", 0))
+        for h in bulk.get("nt_hashes", ()):
+            stats.nt.add(h)
+        for s in bulk.get("samples", ()):
+            if len(stats.samples) < 3:
+                stats.samples.append(s)
     if info["nontrivial"]:
         h = spec_hash(spec)
         if h not in stats.nt:
@@ -389,7 +407,7 @@ def _run_enumerated(sc, tier, shard, n_shards, stats):
         try:
             run_case(sc, spec, stats)
         except Violation as v:
-            stats.violation = (spec, str(v))
+            stats.violation = (getattr(v, "spec_override", None) or spec, str(v))
             return
 
 
@@ -511,8 +529,11 @@ def run_property(prop, tier, seed, only=None):
     ti = tier_index(tier)
     ctx = multiprocessing.get_context("fork")
     tasks = []
+    os.environ["VERIF_SEED_EFFECTIVE"] = str(seed)
     for sc in prop.SUBCHECKS:
         if only and sc.name not in only:
+            continue
+        if tier not in sc.tiers:
             continue
         n_shards = sc.shards[ti]
         for shard in range(n_shards):
@@ -592,6 +613,8 @@ def _report(prop, tier, seed, results, timeouts, wall, only):
     vacuous = []
     for sc in prop.SUBCHECKS:
         if only and sc.name not in only:
+            continue
+        if tier not in sc.tiers:
             continue
         rs = results.get(sc.name, [])
         ev = sum(r["evaluations"] for r in rs)
